@@ -17,6 +17,6 @@ PYTHONPATH=$WT /venv/bin/python -W ignore /tmp/wt_out/$ID/demo_$L.py > /tmp/wt_o
 echo "== test suite with the change"
 PYTHONPATH=$WT /venv/bin/python -m pytest -q -p no:cacheprovider --timeout=900 --continue-on-collection-errors --ignore=tests/matplotlib --junitxml=/tmp/wt_out/$ID/confirm_${L}_junit.xml tests > /tmp/wt_out/$ID/confirm_${L}_pytest.log 2>&1
 tail -1 /tmp/wt_out/$ID/confirm_${L}_pytest.log
-python3 /verif/tools/baseline_check.py /tmp/wt_out/$ID/confirm_${L}_junit.xml
+python3 /verif/tools/cmp_junit.py /tmp/wt_out/base_junit.xml /tmp/wt_out/$ID/confirm_${L}_junit.xml
 } > $OUT 2>&1
 cd /; git -C /repo worktree remove --force $WT
